@@ -94,7 +94,8 @@ Print Assumptions C20_never_raises.
 
 (* ---- what is in front of the datetime counts: a string whose first character is not an ASCII digit is no datetime (fromisoformat reads the year first), so
    an input with white space in front of a fulfilling datetime is unfulfilled, with a message, for all five -- the input is judged as entered, not trimmed.
-   (White space BEHIND the datetime is covered by the correspondence only: the padded strings of vlib/props/c20.py.) *)
+   White space BEHIND the datetime (Proofs/C20_trailing.v): a string without NUL that ends in an ASCII white space character parses, if at all, as a NAIVE
+   datetime -- no time or offset field can end before a trailing non-digit byte -- so it is unfulfilled as well. *)
 From Ahb Require Import Proofs.C20_padded.
 Theorem C20_first_character_must_be_a_digit : forall c s, is_ascii_digit c = false -> parse_as_datetime (c :: s) = PErr.
 Proof. exact first_character_is_a_digit. Qed.
@@ -105,3 +106,11 @@ Theorem C20_leading_white_space_is_no_datetime : forall c s, In c [32; 9; 10; 13
   eval_934 (c :: s) = Ok unfulfilled_v /\ eval_935 (c :: s) = Ok unfulfilled_v.
 Proof. exact leading_white_space_is_no_datetime. Qed.
 Print Assumptions C20_leading_white_space_is_no_datetime.
+
+From Ahb Require Import Proofs.C20_trailing.
+Theorem C20_trailing_white_space_is_no_datetime : forall s w, ~ In 0%N s -> In w [32; 9; 10; 13; 11; 12]%N ->
+  parse_as_datetime (s ++ [w]) = PErr /\
+  eval_931 (s ++ [w]) = Ok unfulfilled_v /\ eval_932 (s ++ [w]) = Ok unfulfilled_v /\ eval_933 (s ++ [w]) = Ok unfulfilled_v /\
+  eval_934 (s ++ [w]) = Ok unfulfilled_v /\ eval_935 (s ++ [w]) = Ok unfulfilled_v.
+Proof. exact (fun s w H0 Hw => conj (trailing_white_space_is_no_datetime s w H0 Hw) (trailing_white_space_unfulfilled s w H0 Hw)). Qed.
+Print Assumptions C20_trailing_white_space_is_no_datetime.
